@@ -261,6 +261,9 @@ func runC13(t gen.Tier, rng *gen.Rng, rep *Reporter) {
 	runRacer(rep, bin, root, "bcomposite", seed, 0, t.N(40, 1200), 1, 5000, time.Duration(t.N(60, 600))*time.Second, &st)
 	rep.Stat("histories_bitmapped_composite", st.histories-hc)
 	runAtomic(rep, bin, t.N(700, 8000), &st)
+	// with one goroutine the only sequential order is the program order: set, Pack, unset by path, Pack
+	// on a bitmapped composite gives the encoding of the remaining subfields
+	compRepackSweep(rep, rng, t.N(150, 3000))
 	rep.Stat("operations", st.ops)
 	rep.Stat("operations_with_result", st.nontrivial)
 	rep.Stat("histories_checked_linearizable", st.checked)
